@@ -1204,6 +1204,95 @@ fn do_astar(c: &mut Ctx, s: u64, t: u64, costs: &BTreeMap<u64, i128>, dir: Direc
     }
 }
 
+/// A* under a config: `edge_type` restricts the search to edges of one type, no `weight_property`
+/// makes every edge weigh 1. Cost compared with the model (`astarCostCfg` = the zero-heuristic A* on
+/// the view of the graph), path validated on the harness-side view against Bellman-Ford.
+fn do_astar_cfg(c: &mut Ctx, s: u64, t: u64, dir: Direction, etype: Option<u8>, weighted: bool) {
+    let g = c.g;
+    let tag = c.tag.clone();
+    let view = GG {
+        nodes: g.nodes.clone(),
+        edges: g
+            .edges
+            .iter()
+            .filter(|e| etype.map_or(true, |x| e.etype == x))
+            .map(|e| {
+                let mut e = e.clone();
+                if !weighted {
+                    e.w = None;
+                }
+                e
+            })
+            .collect(),
+    };
+    let et_arg = etype.map_or("-".to_string(), |x| x.to_string());
+    let line = format!("astarcfg {s} {t} {} {et_arg} {}", dir_name(dir), u8::from(weighted));
+    let mut cfg = AStarConfig::new().direction(dir);
+    if weighted {
+        cfg = cfg.weight_property("w");
+    }
+    if let Some(x) = etype {
+        cfg = cfg.edge_type(format!("t{x}"));
+    }
+    let res = c.eng.astar_path(s, t, &cfg);
+    let key = format!("{}|{}", tag, line);
+    c.rep.case("astar_path.config", if s != t { Some(&key) } else { None });
+    c.rep.hit(if weighted { "astar.cfg.typed" } else if etype.is_some() { "astar.cfg.typed_unweighted" } else { "astar.cfg.unweighted" });
+    {
+        let imp = match &res {
+            Ok(r) => match &r.path {
+                None => "none".to_string(),
+                Some(p) => match cost_exact(p.total_weight) {
+                    Some(x) => format!("ok {x}"),
+                    None => format!("ok ~{}", p.total_weight),
+                },
+            },
+            Err(e) => format!("err {e:?}"),
+        };
+        let model = c.m.ask(&line);
+        c.rep.compare("astar_path.config", || qjson(g, &tag, &line), &imp, &model);
+    }
+    let site = "graph_engine.astar_path";
+    let costs = ref_costs_dir(&view, s, dir);
+    match res {
+        Err(e) => viol(c.rep, &format!("{site}/unexpected_error"), &format!("{e:?}"), qjson(g, &tag, &line)),
+        Ok(r) => match r.path {
+            None => {
+                if let Some(best) = costs.get(&t) {
+                    if g.has(s) && g.has(t) {
+                        viol(c.rep, &format!("{site}/missed_path"), &format!("no path although a walk of cost {best} exists"), qjson(g, &tag, &line));
+                    }
+                }
+            }
+            Some(p) => {
+                let shown = format!("cost {} n={} e={}", p.total_weight, ids(&p.nodes), ids(&p.edges));
+                if !g.has(s) || !g.has(t) {
+                    if s != t {
+                        viol(c.rep, &format!("{site}/path_for_missing_node"), &shown, qjson(g, &tag, &line));
+                    }
+                    return;
+                }
+                if p.edges.iter().any(|id| g.edge(*id).is_some() && view.edge(*id).is_none()) {
+                    viol(c.rep, &format!("{site}/edge_of_other_type"), &format!("returned {shown} for edge_type {et_arg}"), qjson(g, &tag, &line));
+                    return;
+                }
+                match check_walk_dir(&view, s, t, &p.nodes, &p.edges, dir) {
+                    Err(e) => viol(c.rep, &walk_class(site, &e), &format!("returned {shown}: {e:?}"), qjson(g, &tag, &line)),
+                    Ok(sum) => {
+                        if cost_exact(p.total_weight) != Some(sum) {
+                            viol(c.rep, &format!("{site}/wrong_total"), &format!("returned {shown} but the edges sum to {sum}"), qjson(g, &tag, &line));
+                        } else if let Some(&best) = costs.get(&t) {
+                            if best < sum {
+                                viol(c.rep, &format!("{site}/not_optimal"), &format!("returned {shown}, a walk of cost {best} exists"), qjson(g, &tag, &line));
+                            }
+                        }
+                    }
+                }
+            }
+        },
+    }
+}
+
 /// find_all_paths (all shortest paths): compared with the model (same paths, same order) + oracle.
 fn do_all_paths(c: &mut Ctx, s: u64, t: u64, caps: Option<(usize, usize)>) {
     let g = c.g;
@@ -1729,7 +1818,21 @@ fn do_algorithms(c: &mut Ctx, etype: Option<u8>) {
         };
         match c.eng.strongly_connected_components(&cfg) {
             Ok(r) => {
-                let got = canon_partition(r.members);
+                let got = canon_partition(r.members.clone());
+                {
+                    let imp = format!("ok {}", got.iter().map(|grp| dots(grp)).collect::<Vec<_>>().join(";"));
+                    let line = format!("scc {et_arg}");
+                    let model = c.m.ask(&line);
+                    c.rep.compare(&format!("algo.scc{sfx}"), || json!({"graph": full.to_json(), "query": line}), &imp, &model);
+                    let mut by_comp: BTreeMap<usize, Vec<u64>> = BTreeMap::new();
+                    for (n, k) in &r.components {
+                        by_comp.entry(*k).or_default().push(*n);
+                    }
+                    if canon_partition(by_comp.into_values()) != got || r.component_count != got.len() {
+                        viol(c.rep, "graph_engine.strongly_connected_components/inconsistent_result", &format!("components map / count {} disagree with members {got:?}", r.component_count), gj());
+                    }
+                    c.rep.hit(if got.iter().any(|grp| grp.len() > 1) { "scc.nontrivial" } else { "scc.singletons" });
+                }
                 let want = ref_scc(g);
                 if got != want {
                     viol(c.rep, "graph_engine.strongly_connected_components/wrong_partition", &format!("got {got:?} want {want:?}"), gj());
@@ -1973,6 +2076,16 @@ fn run_graph(plan: &Planned, m: &mut Model, rep: &mut Report, r: &mut Rng, budge
                     do_astar(&mut c, s, t, &costs_in, Direction::Incoming);
                     do_astar(&mut c, s, t, &costs_both, Direction::Both);
                 }
+                if r.chance(1, 6) {
+                    // config variants: one edge type and / or no weight property
+                    let (etype, weighted) = match r.below(3) {
+                        0 => (Some(r.below(3) as u8), true),
+                        1 => (Some(r.below(3) as u8), false),
+                        _ => (None, false),
+                    };
+                    let dir = *r.pick(&[Direction::Outgoing, Direction::Incoming, Direction::Both]);
+                    do_astar_cfg(&mut c, s, t, dir, etype, weighted);
+                }
                 // find_all_weighted_paths on every graph, zero-weight edges / cycles / self-loops included
                 // (before aa940b8b it did not terminate when a zero-weight cycle lay on a minimum-weight
                 // route; tpl-zero-cycle and tpl-zero-selfloop are the directed regression cases)
@@ -2155,6 +2268,7 @@ fn main() {
         "allwpaths.zero_weight_graph", "mst.forest", "mst.tree", "components.1", "components.2", "kcore.degeneracy.0",
         "kcore.degeneracy.2", "triangles.zero", "nbrs.some", "nbrs.empty", "nbrs.filtered", "nbrs.nonode", "edges_of.ok",
         "edges_of.nonode", "query.deleted_node", "weights.non_numeric_property",
+        "astar.cfg.typed", "astar.cfg.typed_unweighted", "astar.cfg.unweighted", "scc.nontrivial", "scc.singletons",
     ]
     .iter()
     .map(|s| s.to_string())
